@@ -9,12 +9,21 @@ Stages: proofs (Properties_C03.v) ->
                     _iter_coverage_cases on generated operations vs Model_C03.coverage_cases ->
   oracle search: every yielded value validated with python-jsonschema against its schema according to its label
                  (author examples/defaults exempt); case label vs the labels of the parts the case carries ->
+  oracle at broken ties: whenever a correspondence stage disagrees on an input, the same oracle on the real code at that
+                 input and at its neighbours (bounds moved by one / set to 0 / removed / partner added, sub-schemas, the
+                 input nested in an object property / array items, the input as the JSON body of single-mode operations) ->
+  oracle on bounded keywords: systematic grid minItems/maxItems, minLength/maxLength, minimum/maximum,
+                 minProperties/maxProperties x {absent/0, 0/0, 0/1, 0/absent, n/n, ...} x {top level, optional / required
+                 property, array items, deeper nestings}, value level and case level ->
   replays of the listed findings.
+The oracles run whether or not the model agrees; a mislabelled value is attributed to a listed finding region only when the
+model - which follows the known defects - predicts that very value (judge).
 """
 from __future__ import annotations
 
 import copy
 import json
+import re
 from contextlib import contextmanager
 
 from harness import core
@@ -78,6 +87,16 @@ def recording_draws():
         yield calls
     finally:
         coverage.CoverageContext.generate_from_schema = original
+
+
+def tie_broken(chk, stage, case, impl, model, schemas):
+    """A correspondence stage disagrees on an input: record the broken tie AND remember the schemas involved, so that the property
+    oracle is evaluated on the real code at these inputs and at their neighbours (stage_tie_oracle)."""
+    chk.disagree(stage, case, impl, model)
+    ties = chk.__dict__.setdefault("c03_ties", [])
+    for s in schemas:
+        if isinstance(s, dict):
+            ties.append((stage, copy.deepcopy(s)))
 
 
 def draw_ok(schema) -> bool:
@@ -297,7 +316,7 @@ def stage_numbers(chk, n):
             if impl["positive"][0] == legacy and legacy != mod["positive"][0]:
                 chk.count("numeric:behaves-like-the-planner-before-0b606a31")
                 stats_legacy.append(s)
-            chk.disagree("cover_schema_iter (numeric) vs positive_number_plan/negative_numbers", s, impl, mod)
+            tie_broken(chk, "cover_schema_iter (numeric) vs positive_number_plan/negative_numbers", s, impl, mod, [s])
         else:
             agree += 1
             if impl["positive"][0]:
@@ -340,7 +359,8 @@ def gen_numeric_branch(rng, dialect):
 
 
 def stage_anyof(chk, n):
-    """anyOf / oneOf over numeric branches: the numeric negatives of every branch vs anyof_negative_numbers; validity vs the whole schema."""
+    """anyOf / oneOf over numeric branches: the numeric negatives of every branch vs anyof_negative_numbers, the positive values of every
+    branch vs combined_positive_numbers; validity of every value vs the whole schema."""
     rng = chk.rng
     schemas = [json.loads(p.read_text()) for p in sorted((core.VERIF / "corpus" / "C03").glob("anyof_*.json"))]
     for _ in range(n):
@@ -349,10 +369,14 @@ def stage_anyof(chk, n):
     exprs = []
     for s in schemas:
         branches = next(iter(s.values()))
-        exprs.append(f"anyof_negative_numbers {clist([c_keys(b) for b in branches], '(list nkey)')} []")
+        nums = [c_num_schema(b) for b in branches]
+        exprs.append(
+            f"(anyof_negative_numbers {clist([c_keys(b) for b in branches], '(list nkey)')} [], combined_positive_numbers {clist(nums, 'num_schema')} true, "
+            f"{clist([f'(numeric_exclusive {b}, exclusive_dominates {b}, multiple_satisfiable {b})' for b in nums], '(bool * bool * bool)')})"
+        )
     model = core.coq_eval(IMPORTS, exprs)
     agree = validated = 0
-    for s, m in zip(schemas, model):
+    for s, (m, mpos, mflags) in zip(schemas, model):
         key = next(iter(s))
         values, end = iterate(s, "N", location="body")
         impl = []
@@ -366,19 +390,51 @@ def stage_anyof(chk, n):
                 continue
             v = popt(v)
             mod.append([i, [v[0], v[1]], d, CKEY[k[0]]])
+        # positive side: the values of every branch in turn (the value of "Valid number" is a foreign draw)
+        pvalues, pend = iterate(s, "P", location="body")
+        pimpl = [[None if DESC.get(desc, desc) == "DValid" else value, DESC.get(desc, desc)] for value, _, desc, _ in pvalues]
+        pmod_idx = [(i, popt(v), d) for i, (v, d) in unsym(mpos)]
+        pmod = [[v, d] for _, v, d in pmod_idx]
+        drawable = all(draw_ok(b) for b in s[key])
         chk.seen({"anyof": s}, True)
         chk.count(f"anyof:{key}:{len(s[key])}")
-        if impl != mod or end != "Completed":
-            chk.disagree("cover_schema_iter (anyOf/oneOf numeric branches) vs anyof_negative_numbers", s, [impl, end], mod)
-            continue
-        agree += 1
+        same = impl == mod and end == "Completed"
+        if not same:
+            tie_broken(chk, "cover_schema_iter (anyOf/oneOf numeric branches) vs anyof_negative_numbers", s, [impl, end], mod, [s])
+        psame = not drawable or (pimpl == pmod and pend == "Completed")
+        if not psame:
+            tie_broken(chk, "cover_schema_iter (anyOf/oneOf numeric branches, positive) vs combined_positive_numbers", s, [pimpl, pend], pmod, [s])
+        agree += same and psame
+        planned = {(i, tuple(v), d, k) for i, v, d, k in mod}
         for value, mode, desc, loc in values:
             verdict = is_valid(s, value)
             if verdict is None:
                 continue
             validated += 1
             if verdict:
-                chk.fail("value labelled negative conforms to its schema (valid for a sibling branch)", {"schema": s, "value": repr(value), "description": desc, "at": loc}, region="anyof_sibling")
+                # the listed region (F7) only for a value the model - which follows the defect - yields too
+                parts = loc.strip("/").split("/")
+                is_planned = desc in NEGDESC and len(parts) >= 3 and (int(parts[1]), tuple(canon_py(value)), NEGDESC[desc], parts[2]) in planned
+                chk.fail("value labelled negative conforms to its schema (valid for a sibling branch)", {"schema": s, "value": repr(value), "description": desc, "at": loc}, region="anyof_sibling" if is_planned or impl == mod else None)
+        for value, mode, desc, _ in pvalues:
+            if desc in AUTHORED:
+                continue
+            verdict = is_valid(s, value)
+            if verdict is None:
+                continue
+            validated += 1
+            if not verdict:
+                # regions only for a value the model plans too: the region of the planning branch (F2-F4) when the value conforms to no
+                # branch; F10 when it conforms to more than one branch of a oneOf
+                accepting = [i for i, b in enumerate(s[key]) if is_valid(b, value)]
+                # (the value of "Valid number" is a foreign draw: the model plans it as None)
+                owners = [i for i, v, d in pmod_idx if d == DESC.get(desc, desc) and (v is None if d == "DValid" else (v == value and type(v) is type(value)))]
+                region = None
+                if owners and not accepting:
+                    region = next((r for r in (num_region(mflags[i]) for i in owners) if r is not None), None)
+                elif owners and key == "oneOf" and len(accepting) >= 2:
+                    region = "oneof_sibling_positive"
+                chk.fail("value labelled positive does not conform to its schema (anyOf/oneOf)", {"schema": s, "value": repr(value), "description": desc, "conforms_to_branches": accepting}, region=region)
     chk.stages["correspondence_anyof"] = {"schemas": len(schemas), "agree": agree, "values_validated": validated}
 
 
@@ -439,6 +495,14 @@ def impl_requests(schema, table, lo_key, hi_key):
     return items, failed, end, values
 
 
+def request_admits(lo, hi, size) -> bool:
+    """Could the foreign generator have answered the planned request (lo, hi) with this size?  An empty request (lo > hi, only inside
+    the unsatisfiable-range region) admits anything: there the foreign generator is outside its contract."""
+    if lo is not None and hi is not None and lo > hi:
+        return True
+    return (lo is None or lo <= size) and (hi is None or size <= hi)
+
+
 def needs_char_but_max_zero(s) -> bool:
     """pattern needs at least one character while maxLength is 0: no string conforms."""
     return s.get("maxLength") == 0 and s.get("pattern") in ("^[a-z]+$", "[0-9]")
@@ -460,17 +524,18 @@ def stage_lengths(chk, n):
             chk.count("string:rejected-by-foreign-generator")
             continue
         if items is None or (end or "").startswith("raises"):
-            chk.disagree("_positive_string: draws and yields do not line up", s, [items, end], mod)
-            continue
-        if failed:  # a foreign draw raised (Unsatisfiable pattern/length mix): the generator stops there
-            foreign_failed += 1
-            ok = items == mod[: len(items)]
+            tie_broken(chk, "_positive_string: draws and yields do not line up", s, [items, end], mod, [s])
         else:
-            ok = items == mod
-        if not ok:
-            chk.disagree("_positive_string requests vs string_plan", s, items, mod)
-            continue
-        agree += 1
+            if failed:  # a foreign draw raised (Unsatisfiable pattern/length mix): the generator stops there
+                foreign_failed += 1
+                ok = items == mod[: len(items)]
+            else:
+                ok = items == mod
+            if ok:
+                agree += 1
+            else:
+                tie_broken(chk, "_positive_string requests vs string_plan", s, items, mod, [s])
+        # oracle: runs whether or not the model agrees; the listed region (F3) only for a length the model plans as well
         for value, mode, desc, _ in values:
             if desc in AUTHORED or not isinstance(value, str):
                 continue
@@ -479,7 +544,10 @@ def stage_lengths(chk, n):
                 continue
             validated += 1
             if not verdict:
-                chk.fail("string labelled positive does not conform to its schema", {"schema": s, "value": value[:40], "len": len(value), "description": desc}, region=None if rng_ok and not needs_char_but_max_zero(s) else "unsatisfiable_range")
+                nochar = needs_char_but_max_zero(s)  # the foreign generator itself returns a too long string there
+                planned = any(d == SDESC.get(desc) and (nochar or request_admits(lo, hi, len(value))) for d, lo, hi in mod)
+                unsat = not rng_ok or nochar
+                chk.fail("string labelled positive does not conform to its schema", {"schema": s, "value": value[:40], "len": len(value), "description": desc}, region="unsatisfiable_range" if unsat and planned else None)
     chk.stages["correspondence_string_lengths"] = {"schemas": len(schemas), "agree": agree, "foreign_draw_failed": foreign_failed, "values_validated": validated}
 
 
@@ -507,7 +575,8 @@ def c_arr_schema(s):
 
 def stage_sizes(chk, n):
     rng = chk.rng
-    schemas = [gen_arr_schema(rng) for _ in range(n)]
+    schemas = [json.loads(p.read_text()) for p in sorted((core.VERIF / "corpus" / "C03").glob("arr_*.json"))]
+    schemas += [gen_arr_schema(rng) for _ in range(n)]
     runs = []
     for s in schemas:
         with recording_draws() as calls:
@@ -523,10 +592,12 @@ def stage_sizes(chk, n):
         ctx = coverage.CoverageContext(location="body", generation_modes=modes_of("P"))
         template = ctx.generate_from_schema(calls[0]["schema"])  # cached_draw: the same object the generator got
         keep.append((s, calls[1:], values, len(template)))
-        exprs.append(f"(array_plan {c_arr_schema(s)} {cZ(len(template))}, range_ok (a_min {c_arr_schema(s)}) (a_max {c_arr_schema(s)}))")
+        a = c_arr_schema(s)
+        exprs.append(f"(array_plan {a} {cZ(len(template))}, range_ok (a_min {a}) (a_max {a}), array_plan_falsy_max {a} {cZ(len(template))})")
     model = core.coq_eval(IMPORTS, exprs)
     agree = validated = 0
-    for (s, calls, values, L), (plan, rng_ok) in zip(keep, model):
+    like_falsy = []
+    for (s, calls, values, L), (plan, rng_ok, plan_falsy) in zip(keep, model):
         mod = [[d, popt(lo), popt(hi)] for (d, lo, hi) in plan]
         failed = any(not c["ok"] for c in calls)
         items, idx = [], 0
@@ -542,11 +613,19 @@ def stage_sizes(chk, n):
                 items.append([desc, "no-draw", None])
         chk.seen({"arr": s}, "minItems" in s or "maxItems" in s)
         chk.count("array:" + ",".join(sorted(k for k in s if k not in ("type", "items"))))
+        lo_b, hi_b = s.get("minItems"), s.get("maxItems")
+        if hi_b == 0 or lo_b == 0 or (lo_b is not None and lo_b == hi_b):
+            chk.count(f"array:bounds={'absent' if lo_b is None else lo_b if lo_b < 2 else 'n'}/{'absent' if hi_b is None else hi_b if hi_b < 2 else 'n'}")
         ok = items == (mod[: len(items)] if failed else mod)
         if not ok:
-            chk.disagree("_positive_array requests vs array_plan", {"schema": s, "template_len": L}, items, mod)
-            continue
-        agree += 1
+            falsy = [[d, popt(lo), popt(hi)] for (d, lo, hi) in plan_falsy]
+            if items == falsy and falsy != mod:
+                chk.count("array:behaves-like-the-planner-with-the-truthiness-guard-on-maxItems")
+                like_falsy.append(s)
+            tie_broken(chk, "_positive_array requests vs array_plan", {"schema": s, "template_len": L}, items, mod, [s])
+        else:
+            agree += 1
+        # oracle: runs whether or not the model agrees; the listed region (F3, minItems > maxItems) only for a size the model plans too
         for value, mode, desc, _ in values:
             if desc in AUTHORED or not isinstance(value, list):
                 continue
@@ -555,7 +634,13 @@ def stage_sizes(chk, n):
                 continue
             validated += 1
             if not verdict:
-                chk.fail("array labelled positive does not conform to its schema", {"schema": s, "size": len(value), "description": desc}, region=None if rng_ok else "unsatisfiable_range")
+                planned = any(d == ADESC.get(desc) and request_admits(lo, hi, len(value)) for d, lo, hi in mod)
+                chk.fail("array labelled positive does not conform to its schema", {"schema": s, "size": len(value), "description": desc}, region="unsatisfiable_range" if planned and not rng_ok else None)
+    if like_falsy:
+        chk.notes.append(
+            f"{len(like_falsy)} array schemas are planned exactly as by array_plan_falsy_max (upper-bound guard `not max_items` instead of "
+            f"`max_items is None`; theorem C03_array_falsy_max_guard_refuted), e.g. {like_falsy[0]}"
+        )
     chk.stages["correspondence_array_sizes"] = {"schemas": len(schemas), "compared": len(keep), "agree": agree, "values_validated": validated}
 
 
@@ -603,7 +688,9 @@ def gen_object_schema(rng):
     if rng.random() < 0.12:
         s = {"type": "array", "items": gen_sub_schema(rng)}
         if rng.random() < 0.4:
-            s["maxItems"] = rng.choice([1, 2, 3])
+            s["maxItems"] = rng.choice([0, 1, 2, 3])
+        if rng.random() < 0.4:
+            s["minItems"] = rng.choice([0, 0, 1, s.get("maxItems", 2)])
         return s
     names = ["a", "b", "c"][: rng.choice([0, 1, 2, 3])]
     s = {"type": "object"}
@@ -626,9 +713,11 @@ def gen_object_schema(rng):
         elif k == "propertyNames":
             s[k] = rng.choice([{"maxLength": 8}, {"pattern": "^[a-z_]+$"}, {"minLength": 1}])
         elif k == "minProperties":
-            s[k] = rng.choice([0, 1, 2, 3])
+            s[k] = rng.choice([0, 0, 1, 2, 3])
         elif k == "maxProperties":
-            s[k] = rng.choice([1, 2, 3, 5])
+            s[k] = rng.choice([0, 1, 2, 3, 5])
+    if "minProperties" in s and "maxProperties" in s and rng.random() < 0.5:  # equal bounds n/n (0/0 included)
+        s["maxProperties"] = s["minProperties"]
     return s
 
 
@@ -761,7 +850,7 @@ def stage_objects(chk, n):
         chk.count(f"object:modes={tag}:" + ",".join(sorted(k for k in s if k not in ("type", "properties"))))
         ok = impl == mod
         if not ok:
-            chk.disagree("cover_schema_iter object/array wrappers vs object_negatives", {"schema": s, "modes": tag}, impl, mod)
+            tie_broken(chk, "cover_schema_iter object/array wrappers vs object_negatives", {"schema": s, "modes": tag}, impl, mod, [s])
         # sizes of the subset objects of _positive_object (schemas whose template holds exactly the declared properties)
         if ok and "P" in tag and s.get("type") == "object" and has_template and set(s) <= {"type", "properties", "required", "minProperties", "maxProperties"}:
             isz = []
@@ -773,7 +862,7 @@ def stage_objects(chk, n):
             sizes_compared += 1
             if isz != msz:
                 ok = False
-                chk.disagree("_positive_object subset sizes vs object_subset_sizes", {"schema": s, "modes": tag}, isz, msz)
+                tie_broken(chk, "_positive_object subset sizes vs object_subset_sizes", {"schema": s, "modes": tag}, isz, msz, [s])
         agree += ok
         for value, mode, desc, loc in values:
             if desc in AUTHORED:
@@ -842,6 +931,9 @@ def gen_operation(rng):
             schema = copy.deepcopy(rng.choice(PARAM_SCHEMAS[:5]))
         if rng.random() < 0.3:
             schema = gen_signed_multiple_schema(rng)
+        elif loc != "path" and rng.random() < 0.12:  # zero / equal bounds of a string, integer or (query only) array parameter
+            # an array parameter in a header/cookie makes _iter_coverage_cases raise TypeError in _stringify_value (a crash, not a label)
+            schema = bounded_schema(rng.choice(["string", "integer", "array"] if loc == "query" else ["string", "integer"]), *rng.choice(BOUND_PAIRS), rng.randrange(12))
         params.append({"name": name, "in": loc, "required": True if loc == "path" else rng.random() < 0.5, "schema": schema})
     bodies = []
     for media in rng.choice([[], [], ["application/json"], ["application/json", "text/plain"], ["text/plain", "application/json"]]):
@@ -850,6 +942,8 @@ def gen_operation(rng):
             bodies[-1][1] = gen_object_schema(rng)
         elif media == "application/json" and rng.random() < 0.25:
             bodies[-1][1] = rng.choice([gen_signed_multiple_schema(rng), {"type": "object", "properties": {"n": gen_signed_multiple_schema(rng, safe=True)}, "required": ["n"]}])
+        elif media == "application/json" and rng.random() < 0.3:
+            bodies[-1][1] = gen_bounded(rng)
     method = rng.choice(["post", "put", "get", "patch"])
     others = [m for m in ALL_METHODS if m != method and rng.random() < 0.3]
     return {"params": params, "bodies": bodies, "method": method, "other_methods": others, "modes": rng.choice(["P", "N", "PN", "PN", "PN"])}
@@ -1126,6 +1220,10 @@ def content_matches(operation, mcase, icase, names, medias, values) -> str | Non
     return None
 
 
+def desc_schemas(desc):
+    return [p["schema"] for p in desc.get("params", [])] + [schema for _, schema in desc.get("bodies", [])]
+
+
 def case_region(mcase, shape) -> str | None:
     if mcase["sig"][0] == "body" and mcase["sig"][2] >= 1:
         return "body_tail"
@@ -1160,11 +1258,13 @@ def compare_operation(chk, ctx, val, stats):
     agree = canon_i == canon_m and iend == mend
     if not agree:
         first = next((i for i, (a, b) in enumerate(zip(canon_i, canon_m)) if a != b), min(len(canon_i), len(canon_m)))
-        chk.disagree(
+        tie_broken(
+            chk,
             "_iter_coverage_cases label tuples vs coverage_cases",
             desc,
             {"n": len(canon_i), "end": iend, "first_difference_at": first, "there": canon_i[first : first + 2]},
             {"n": len(canon_m), "end": mend, "there": canon_m[first : first + 2]},
+            desc_schemas(desc),
         )
         if [c["sig"] for c in icases] != [c["sig"] for c in mcases]:
             return  # not even the same cases: nothing to line the oracle up with
@@ -1176,7 +1276,7 @@ def compare_operation(chk, ctx, val, stats):
         if agree:
             why = content_matches(operation, mc, ic, names, medias, values)
             if why is not None:
-                chk.disagree("content of a case vs the parts of the model case", {"operation": desc, "case": mc["sig"]}, why, mc["parts"])
+                tie_broken(chk, "content of a case vs the parts of the model case", {"operation": desc, "case": mc["sig"]}, why, mc["parts"], desc_schemas(desc))
                 return
         # oracle: case label (of the implementation) vs the labels of the parts the case carries
         structural = mc["sig"][0] in ("method", "duplicate", "missing")
@@ -1210,46 +1310,24 @@ def is_plain_numeric(schema) -> bool:
 
 def operation_value_oracle(chk, ctxs, stats):
     """Every value of every parameter/body generator of every operation, validated against its schema according to its label.
-    A positive value that does not conform is attributed to a listed region only if the model plans that very value too."""
-    numeric = {}
-    for c in ctxs:
-        for rec in c["values"].values():
-            if is_plain_numeric(rec["schema"]):
-                numeric.setdefault(json.dumps(rec["schema"], sort_keys=False), rec["schema"])
-    keys = list(numeric)
-    flags = core.coq_eval(
-        IMPORTS,
-        [
-            f"(fst (positive_number_plan {c_num_schema(numeric[k])} true), (numeric_exclusive {c_num_schema(numeric[k])}, exclusive_dominates {c_num_schema(numeric[k])}, "
-            f"multiple_satisfiable {c_num_schema(numeric[k])}))"
-            for k in keys
-        ],
-    )
-    known = {}
-    for k, (plan, fl) in zip(keys, flags):
-        known[k] = ({(popt(v), d) for v, d in plan}, num_region(fl))
+    A mislabelled value is attributed to a listed region only if the model predicts that very value too (judge)."""
+    items = []
     for c in ctxs:
         for (loc, name), rec in c["values"].items():
-            schema = rec["schema"]
-            k = json.dumps(schema, sort_keys=False)
             for value, mode, desc in rec["values"]:
-                if desc in AUTHORED:
-                    continue
-                verdict = is_valid(schema, value)
-                if verdict is None:
-                    continue
-                stats["operation_values_validated"] += 1
-                if (mode == "P") == verdict:
-                    continue
-                region = object_region(schema, value, mode, desc)
-                if mode == "P" and k in known and (value, DESC.get(desc, desc)) in known[k][0]:
-                    region = known[k][1]
-                chk.fail(
-                    f"value of {loc} {name!r} labelled {'positive' if mode == 'P' else 'negative'} {'does not conform to' if mode == 'P' else 'conforms to'} its schema; "
-                    "it is sent in cases labelled accordingly",
-                    {"operation": c["desc"], "parameter": [loc, name], "schema": schema, "value": repr(value), "description": desc},
-                    region=region,
+                items.append(
+                    {
+                        "what": f"value of {loc} {name!r}, sent in cases labelled accordingly",
+                        "input": {"operation": c["desc"], "parameter": [loc, name], "schema": rec["schema"]},
+                        "schema": rec["schema"],
+                        "value": value,
+                        "mode": mode,
+                        "desc": desc,
+                    }
                 )
+    counter = {}
+    judge(chk, items, counter)
+    stats["operation_values_validated"] += counter.get("values_validated", 0)
 
 
 @contextmanager
@@ -1329,9 +1407,10 @@ def gen_composite(rng):
 
 def stage_composite(chk, n):
     rng = chk.rng
-    checked = 0
-    for _ in range(n):
-        s = gen_composite(rng) if rng.random() < 0.5 else gen_object_schema(rng)
+    stats = {"values_validated": 0}
+    items = []
+    for i in range(n):
+        s = gen_bounded(rng) if i % 3 == 2 else gen_composite(rng) if rng.random() < 0.5 else gen_object_schema(rng)
         plain = {k: v for k, v in s.items() if k != "nullable"}
         for tag in ("P", "N", "PN"):
             values, end = iterate(plain, tag, location="body")
@@ -1339,16 +1418,407 @@ def stage_composite(chk, n):
                 chk.count("composite:" + end)
                 continue
             for value, mode, desc, loc in values:
-                if desc in AUTHORED:
-                    continue
-                verdict = is_valid(plain, value)
-                if verdict is None:
-                    continue
-                checked += 1
                 chk.seen({"composite": plain, "v": repr(value)[:60], "m": mode}, True)
-                if (mode == "P") != verdict:
-                    chk.fail(f"value labelled {'positive' if mode == 'P' else 'negative'} {'does not conform' if mode == 'P' else 'conforms'}", {"schema": plain, "modes": tag, "value": repr(value)[:120], "description": desc}, region=object_region(plain, value, mode, desc))
+                items.append({"what": "composite schema", "input": {"schema": plain, "modes": tag}, "schema": plain, "value": value, "mode": mode, "desc": desc})
+    judge(chk, items, stats)
+    checked = stats["values_validated"]
     chk.stages["oracle_composite_schemas"] = {"schemas": n, "values_validated": checked}
+
+
+# ----------------------------------------------------------------------------------------
+# the property oracle proper, for any schema: label vs python-jsonschema, regions decided by the model
+# ----------------------------------------------------------------------------------------
+WRAPPED = re.compile(r"Object with (?:valid|invalid) '([^']*)' value: (.*)$", re.S)
+
+
+def locate(schema, value, mode, desc):
+    """Follow the object wrappers of _positive_object / _negative_properties down to the sub-schema whose own value carries the wrong
+    label: (sub-schema, sub-value, sub-description).  Stops where the sub-value is not itself mislabelled (then the object is)."""
+    while isinstance(schema, dict):
+        m = WRAPPED.match(desc)
+        props = schema.get("properties") or {}
+        if isinstance(value, dict) and m and m.group(1) in props and m.group(1) in value:
+            sub, subvalue, subdesc = props[m.group(1)], value[m.group(1)], m.group(2)
+        elif isinstance(value, list) and len(value) == 1 and desc.startswith("Array with invalid items: ") and isinstance(schema.get("items"), dict):
+            sub, subvalue, subdesc = schema["items"], value[0], desc.split(": ", 1)[1]
+        else:
+            break
+        verdict = is_valid(sub, subvalue) if isinstance(sub, dict) else None
+        if verdict is None or verdict == (mode == "P"):
+            break
+        schema, value, desc = sub, subvalue, subdesc
+    return schema, value, desc
+
+
+AUTHOR_KEYS = ("example", "examples", "default")
+SUBSCHEMA_MAPS = ("properties", "patternProperties")
+SUBSCHEMA_KEYS = ("items", "additionalProperties", "propertyNames")
+SUBSCHEMA_LISTS = ("anyOf", "oneOf", "allOf")
+
+
+def subschemas(s):
+    if not isinstance(s, dict):
+        return
+    for k in SUBSCHEMA_MAPS:
+        if isinstance(s.get(k), dict):
+            yield from (v for v in s[k].values() if isinstance(v, dict))
+    for k in SUBSCHEMA_KEYS:
+        if isinstance(s.get(k), dict):
+            yield s[k]
+    for k in SUBSCHEMA_LISTS:
+        if isinstance(s.get(k), list):
+            yield from (v for v in s[k] if isinstance(v, dict))
+
+
+def strip_authored(s):
+    """The schema without the author's own examples/defaults (their values are exempt from the property)."""
+    if not isinstance(s, dict):
+        return s
+    out = {}
+    for k, v in s.items():
+        if k in AUTHOR_KEYS:
+            continue
+        if k in SUBSCHEMA_MAPS and isinstance(v, dict):
+            v = {name: strip_authored(sub) for name, sub in v.items()}
+        elif k in SUBSCHEMA_KEYS:
+            v = strip_authored(v)
+        elif k in SUBSCHEMA_LISTS and isinstance(v, list):
+            v = [strip_authored(sub) for sub in v]
+        out[k] = v
+    return out
+
+
+def has_nested_authored(s) -> bool:
+    """Author examples/defaults below the top level end up inside drawn templates (_get_properties turns them into const/enum):
+    every value built around such a template carries an exempt value."""
+    return any(any(k in sub for k in AUTHOR_KEYS) or has_nested_authored(sub) for sub in subschemas(s))
+
+
+def judge(chk, items, counter=None):
+    """items: dicts {what, input, schema, value, mode, desc}.  Every value is validated with python-jsonschema against its schema
+    according to its label; a mislabelled one is reported with chk.fail.  It is attributed to a listed finding region only when the
+    model, which follows the known defects, predicts that very value (numeric plans through one coq_eval batch)."""
+    bad = []
+    for it in items:
+        if it["desc"] in AUTHORED or it["desc"].endswith(tuple(": " + a for a in AUTHORED)):
+            continue
+        if it["mode"] == "P" and has_nested_authored(it["schema"]):
+            continue  # built around a template that holds the author's own example/default (exempt)
+        verdict = is_valid(it["schema"], it["value"])
+        if verdict is None:
+            continue
+        if counter is not None:
+            counter["values_validated"] = counter.get("values_validated", 0) + 1
+        if (it["mode"] == "P") != verdict:
+            bad.append(it)
+    numeric = {}
+    for it in bad:
+        it["leaf"] = locate(it["schema"], it["value"], it["mode"], it["desc"])
+        leaf = it["leaf"][0]
+        # the planner(s) the value can come from: the leaf itself, or - under anyOf/oneOf - the branches it does not conform to
+        it["planners"] = [leaf] + [b for k in ("anyOf", "oneOf") for b in (leaf.get(k) or []) if isinstance(b, dict) and is_valid(b, it["leaf"][1]) is False] if isinstance(leaf, dict) else []
+        it["overlap"] = [b for b in (leaf.get("oneOf") or []) if isinstance(b, dict) and is_valid(b, it["leaf"][1])] if isinstance(leaf, dict) and it["mode"] == "P" else []
+        if it["mode"] == "P":
+            for b in it["planners"] + it["overlap"]:
+                if is_plain_numeric(b):
+                    numeric.setdefault(json.dumps(b, sort_keys=False), b)
+    known = {}
+    if numeric:
+        keys = list(numeric)
+        flags = core.coq_eval(
+            IMPORTS,
+            [
+                f"(fst (positive_number_plan {c_num_schema(numeric[k])} true), (numeric_exclusive {c_num_schema(numeric[k])}, exclusive_dominates {c_num_schema(numeric[k])}, "
+                f"multiple_satisfiable {c_num_schema(numeric[k])}))"
+                for k in keys
+            ],
+        )
+        for k, (plan, fl) in zip(keys, flags):
+            known[k] = ({(popt(v), d) for v, d in plan}, num_region(fl))
+    for it in bad:
+        schema, value, desc = it["leaf"]
+        mode = it["mode"]
+        region = object_region(schema, value, mode, desc)
+        for b in it["planners"] if mode == "P" else []:
+            if region is not None:
+                break
+            k = json.dumps(b, sort_keys=False)
+            if k in known:  # a number: the listed region of the schema, provided the model plans that very value
+                region = known[k][1] if (value, DESC.get(desc, desc)) in known[k][0] else None
+            elif b.get("type") == "string" and isinstance(value, str):
+                lo, hi = b.get("minLength"), b.get("maxLength")
+                if (isinstance(lo, int) and isinstance(hi, int) and lo > hi) or needs_char_but_max_zero(b):
+                    region = "unsatisfiable_range"
+            elif b.get("type") == "array" and isinstance(value, list):
+                lo, hi = b.get("minItems"), b.get("maxItems")
+                if isinstance(lo, int) and isinstance(hi, int) and lo > hi:
+                    region = "unsatisfiable_range"
+        if region is None and len(it["overlap"]) >= 2:
+            # F10: a positive value of one oneOf branch that a sibling accepts as well (provided the model plans it for one of them)
+            for b in it["overlap"]:
+                k = json.dumps(b, sort_keys=False)
+                if k not in known or ((None, "DValid") if desc == "Valid number" else (value, DESC.get(desc, desc))) in known[k][0]:
+                    region = "oneof_sibling_positive"
+        if region is None and mode == "P" and desc.startswith("Valid ") and not satisfiable(schema):
+            region = "unsatisfiable_range"  # a template drawn by the foreign generator for a schema with an empty range: outside its contract
+        if region is None and mode == "N" and isinstance(schema, dict) and ("anyOf" in schema or "oneOf" in schema):
+            region = "anyof_sibling"
+        chk.fail(
+            it["what"] + (": labelled positive, does not conform to its schema" if mode == "P" else ": labelled negative, conforms to its schema"),
+            {**it["input"], "value": repr(it["value"])[:160], "description": it["desc"]},
+            region=region,
+        )
+    return len(bad)
+
+
+def values_of(schema, tags, what, location="body"):
+    """Items for judge(): every value cover_schema_iter yields for schema under each of the mode sets."""
+    out = []
+    for tag in tags:
+        values, end = iterate(schema, tag, location=location)
+        if end != "Completed":
+            continue
+        for value, mode, desc, _ in values:
+            out.append({"what": what, "input": {"schema": schema, "modes": tag}, "schema": schema, "value": value, "mode": mode, "desc": desc})
+    return out
+
+
+def case_items(desc, what):
+    """Case level, through _iter_coverage_cases, for single-mode operations (there the label of every body/parameter case is fully
+    determined by its content): the body a case carries, judged by the label of the CASE."""
+    items = []
+    try:
+        operation = build_operation(desc)
+        icases, end = impl_cases(operation, desc)
+    except Exception:  # noqa: BLE001
+        return items
+    schemas = dict((media, schema) for media, schema in desc["bodies"])
+    for c in icases:
+        case = c["case"]
+        if c["sig"][0] != "body" or case.media_type not in schemas:
+            continue
+        items.append(
+            {
+                "what": what,
+                "input": {"operation": desc, "case": c["sig"], "case_mode": c["mode"], "body": repr(case.body)[:160]},
+                "schema": schemas[case.media_type],
+                "value": case.body,
+                "mode": c["mode"],
+                "desc": case.meta.phase.data.description,
+            }
+        )
+    return items
+
+
+# ----------------------------------------------------------------------------------------
+# end-to-end oracle on bounded keywords: zero-valued and equal bounds, at top level and nested
+# ----------------------------------------------------------------------------------------
+FAMILIES = {"array": ("minItems", "maxItems"), "string": ("minLength", "maxLength"), "integer": ("minimum", "maximum"), "object": ("minProperties", "maxProperties")}
+# (lower, upper): absent/0, 0/0, 0/1, explicit 0 lower bound vs absent, n/n, n/n+1
+BOUND_PAIRS = [(None, 0), (0, 0), (0, 1), (0, None), (None, 1), (1, 1), (2, 2), (0, 2), (1, 2), (3, 3), (None, 2), (2, None), (1, None)]
+QUICK_PAIRS = [(None, 0), (0, 0), (0, 1), (0, None), (1, 1), (2, 2)]
+WRAPPERS = ["top", "optional-property", "required-property", "items", "property-of-property", "items-of-property"]
+ITEM_SCHEMAS = [{"type": "integer"}, {"type": "string", "enum": ["a", "b", "c", "d"]}, {"type": "boolean"}, {"type": "string", "minLength": 0, "maxLength": 0}]
+OBJECT_BASES = [
+    {"type": "object", "properties": {"a": {"type": "integer"}, "b": {"type": "string"}}},
+    {"type": "object", "properties": {"a": {"type": "integer"}, "b": {"type": "string"}}, "required": ["a"]},
+    {"type": "object", "additionalProperties": {"type": "integer"}},
+    {"type": "object"},
+]
+
+
+def bounded_schema(family, lo, hi, variant=0):
+    """A schema of the family with the given lower/upper bound keyword (None = absent); variant picks the base and the key order."""
+    lo_key, hi_key = FAMILIES[family]
+    if family == "array":
+        base = {"type": "array", "items": copy.deepcopy(ITEM_SCHEMAS[variant % len(ITEM_SCHEMAS)])}
+    elif family == "object":
+        base = copy.deepcopy(OBJECT_BASES[variant % len(OBJECT_BASES)])
+    else:
+        base = {"type": family}
+        if family == "integer" and variant % 3 == 2:  # the same bounds around a negative value: -n/-n, -1/0
+            lo, hi = (None if lo is None else lo - 1 - variant % 2), (None if hi is None else hi - 1 - variant % 2)
+    keys = [(lo_key, lo), (hi_key, hi)]
+    if variant % 2:
+        keys.reverse()
+    for k, v in keys:
+        if v is not None:
+            base[k] = v
+    return base
+
+
+def wrap_schema(kind, s):
+    if kind == "top":
+        return s
+    if kind == "optional-property":
+        return {"type": "object", "properties": {"n": {"type": "string"}, "t": s}, "required": ["n"], "additionalProperties": False}
+    if kind == "required-property":
+        return {"type": "object", "properties": {"n": {"type": "string"}, "t": s}, "required": ["n", "t"]}
+    if kind == "items":
+        return {"type": "array", "items": s, "maxItems": 2}
+    if kind == "property-of-property":
+        return wrap_schema("optional-property", wrap_schema("required-property", s))
+    if kind == "items-of-property":
+        return wrap_schema("optional-property", {"type": "array", "items": s, "minItems": 1, "maxItems": 1})
+    raise ValueError(kind)
+
+
+def gen_bounded(rng):
+    family = rng.choice(list(FAMILIES))
+    lo, hi = rng.choice(BOUND_PAIRS)
+    if rng.random() < 0.25:  # n/n and n/n+1 for a larger n
+        n = rng.choice([4, 5, 7])
+        lo, hi = rng.choice([(n, n), (n, n + 1), (0, n), (None, n)])
+    return wrap_schema(rng.choice(WRAPPERS), bounded_schema(family, lo, hi, rng.randrange(12)))
+
+
+def stage_bounds(chk, thorough=False):
+    """Systematic (not sampled): every bounded keyword pair x every zero/equal bound combination x every nesting, validated by label."""
+    rng = chk.rng
+    stats = {"schemas": 0, "values_validated": 0, "operations": 0}
+    items = []
+    pairs = BOUND_PAIRS if thorough else QUICK_PAIRS
+    wrappers = WRAPPERS if thorough else WRAPPERS[:4]
+    turn = rng.randrange(12)
+    for family in FAMILIES:
+        for lo, hi in pairs:
+            for w in wrappers:
+                turn += 1
+                s = wrap_schema(w, bounded_schema(family, lo, hi, turn))
+                stats["schemas"] += 1
+                chk.seen({"bounded": s}, True)
+                chk.count(f"bounds:{family}:{'absent' if lo is None else lo}/{'absent' if hi is None else hi}:{w}")
+                # PN yields the positive and the negative values; the single-mode runs rotate in the quick tier
+                tags = ("P", "N", "PN") if thorough else ("PN", ("P", "N")[turn % 2])
+                items += values_of(s, tags, f"bounded keyword ({FAMILIES[family][0]}/{FAMILIES[family][1]}, {w})")
+    # case level: the same schemas as JSON bodies of single-mode operations
+    with deterministic_draws():
+        for family in FAMILIES:
+            for lo, hi in (QUICK_PAIRS if thorough else [(0, 0), (None, 0), (0, 1)]):
+                for w in ("top", "optional-property"):
+                    turn += 1
+                    s = wrap_schema(w, bounded_schema(family, lo, hi, turn))
+                    for modes in ("P", "N") if thorough else (("P", "N")[turn % 2],):
+                        desc = {"params": [], "bodies": [["application/json", s]], "method": "post", "other_methods": [], "modes": modes}
+                        stats["operations"] += 1
+                        items += case_items(desc, "coverage case with a bounded body")
+    stats["mislabelled"] = judge(chk, items, stats)
+    chk.stages["oracle_bounded_keywords"] = stats
+
+
+# ----------------------------------------------------------------------------------------
+# a broken tie must come with a failing input whenever there is one: the property oracle at the disagreeing inputs
+# and at their neighbours
+# ----------------------------------------------------------------------------------------
+BOUND_KEYS = [k for pair in FAMILIES.values() for k in pair] + ["exclusiveMinimum", "exclusiveMaximum", "multipleOf"]
+PARTNER = {lo: hi for lo, hi in FAMILIES.values()} | {hi: lo for lo, hi in FAMILIES.values()}
+
+
+def satisfiable(s) -> bool:
+    """No empty range anywhere in the schema (minX > maxX, negative sizes, no multiple of the step inside an integer range).
+    Neighbours stay outside the unsatisfiable ranges (listed finding F3) unless the input itself is inside."""
+    if not isinstance(s, dict):
+        return True
+
+    def num(k):
+        v = s.get(k)
+        return v if isinstance(v, int) and not isinstance(v, bool) else None
+
+    for lo, hi in FAMILIES.values():
+        a, b = num(lo), num(hi)
+        if a is not None and b is not None and a > b:
+            return False
+        if lo != "minimum" and any(v is not None and v < 0 for v in (a, b)):
+            return False
+    m = num("multipleOf")
+    if m is not None and m <= 0:
+        return False
+    if s.get("type") == "integer":
+        los = [v for v in (num("minimum"), None if num("exclusiveMinimum") is None else num("exclusiveMinimum") + 1) if v is not None]
+        his = [v for v in (num("maximum"), None if num("exclusiveMaximum") is None else num("exclusiveMaximum") - 1) if v is not None]
+        if los and his:
+            lo, hi = max(los), min(his)
+            if lo > hi or (m and -(-lo // m) * m > hi):
+                return False
+    if s.get("maxLength") == 0 and s.get("pattern") in ("^[a-z]+$", "[0-9]"):
+        return False
+    return all(satisfiable(sub) for sub in subschemas(s))
+
+
+def neighbours(x):
+    """x, x with one bound moved by one / set to 0 / removed / its absent partner added (0 and the same value), the sub-schemas of x,
+    and x nested in an object property (optional, required) and in array items."""
+    out = [x]
+    if not isinstance(x, dict):
+        return out
+    for k in BOUND_KEYS:
+        v = x.get(k)
+        if isinstance(v, int) and not isinstance(v, bool):
+            for nv in (v - 1, v + 1, 0):
+                if nv != v:
+                    out.append({**x, k: nv})
+            out.append({kk: vv for kk, vv in x.items() if kk != k})
+            other = PARTNER.get(k)
+            if other and other not in x:
+                out += [{**x, other: 0}, {**x, other: v}]
+    for sub in list((x.get("properties") or {}).values()) + [x.get("items")] + list(x.get("anyOf") or []) + list(x.get("oneOf") or []):
+        if isinstance(sub, dict) and sub:
+            out.append(sub)
+    if any(k in x for k in AUTHOR_KEYS) or has_nested_authored(x):
+        out.insert(1, strip_authored(x))
+    base = list(out)
+    for y in base[: 1 + len(base) // 2]:
+        y = strip_authored(y)
+        out += [wrap_schema("optional-property", y), wrap_schema("required-property", y), wrap_schema("items", y)]
+    keep, seen = [], set()
+    ok_x = satisfiable(x)
+    for y in out:
+        key = json.dumps(y, sort_keys=False, default=str)
+        if key in seen or (ok_x and not satisfiable(y)):
+            continue
+        seen.add(key)
+        keep.append(y)
+    return keep
+
+
+def stage_tie_oracle(chk, max_inputs=24, max_schemas=700):
+    ties = chk.__dict__.get("c03_ties", [])
+    if not ties:
+        return
+    # distinct inputs, one per (stage, bound signature) first so that the budget is spread over the kinds of disagreement
+    distinct, seen, sigs = [], set(), set()
+    for stage, s in ties:
+        key = json.dumps(s, sort_keys=False, default=str)
+        if key in seen:
+            continue
+        seen.add(key)
+        sig = (stage, tuple(sorted((k, s[k]) for k in BOUND_KEYS if isinstance(s.get(k), (int, bool)))), s.get("type") if isinstance(s.get("type"), str) else None)
+        distinct.append((sig not in sigs, len(distinct), stage, s))
+        sigs.add(sig)
+    distinct.sort(key=lambda t: (not t[0], t[1]))
+    stats = {"disagreeing_inputs": len(distinct), "inputs_examined": 0, "schemas": 0, "values_validated": 0, "operations": 0}
+    items, done = [], set()
+    for _, _, stage, x in distinct[:max_inputs]:
+        stats["inputs_examined"] += 1
+        for y in neighbours(x):
+            key = json.dumps(y, sort_keys=False, default=str)
+            if key in done or stats["schemas"] >= max_schemas:
+                continue
+            done.add(key)
+            stats["schemas"] += 1
+            chk.seen({"tie-neighbour": y}, True)
+            what = "at the input of a broken tie" if y is x else "at a neighbour of the input of a broken tie"
+            items += values_of(y, ("P", "N", "PN"), f"{what} ({stage})")
+    with deterministic_draws():
+        for _, _, stage, x in distinct[: max(4, max_inputs // 3)]:
+            for y in (x, wrap_schema("optional-property", x)):
+                for modes in ("P", "N"):
+                    desc = {"params": [], "bodies": [["application/json", y]], "method": "post", "other_methods": [], "modes": modes}
+                    stats["operations"] += 1
+                    items += case_items(desc, f"coverage case whose body is the input of a broken tie ({stage})")
+    stats["mislabelled"] = judge(chk, items, stats)
+    chk.count("tie-oracle:inputs", stats["inputs_examined"])
+    chk.stages["oracle_at_broken_ties"] = stats
 
 
 # ----------------------------------------------------------------------------------------
@@ -1381,7 +1851,7 @@ def run(chk: core.Check):
     chk.trusted = [
         "Coq 8.16.1 kernel, vm_compute (witness lemmas and model evaluation); no native_compute; no axioms",
         "hand-written model theories/C03/Model_C03.v of closest_multiple_greater_than, _positive_number, the numeric/length keys of "
-        "cover_schema_iter, the request plans of _positive_string/_positive_array, Template and _iter_coverage_cases",
+        "cover_schema_iter, the request plans of _positive_string/_positive_array, the positive values under anyOf/oneOf, Template and _iter_coverage_cases",
         "correspondence harness harness/props/c03.py (encoders, Coq output parser, canonicalisers, generators, the observation wrapper "
         "around CoverageContext.generate_from_schema, the reconstruction of _combination_schema)",
         "python-jsonschema 4.26 (Draft4Validator for boolean exclusive bounds, Draft202012Validator otherwise) as the validity oracle",
@@ -1395,18 +1865,26 @@ def run(chk: core.Check):
     chk.rule = (
         "one PRNG (VERIF_SEED): integer/number schemas with random subsets and orders of minimum/maximum/exclusive*(numeric or boolean)/"
         "multipleOf/example/examples/default over a pool rich in 0 and equal bounds; string schemas with min/maxLength around 0 and BUFFER_SIZE; "
-        "array schemas; operations with 0-5 parameters over 4 locations (incl. typeless and empty schemas), 0-2 bodies, extra methods, "
-        "3 generation modes; non-trivial = at least one bound / at least 3 cases; distinct by canonical JSON"
+        "array schemas (corpus arr_*.json + random, min/maxItems over 0, equal and n/n+1 bounds); operations with 0-5 parameters over 4 locations "
+        "(incl. typeless and empty schemas, zero/equal-bounded strings, integers, query arrays), 0-2 bodies (incl. bounded schemas nested in objects/arrays), "
+        "extra methods, 3 generation modes; a systematic grid of the four bounded keyword pairs x zero/equal bound combinations x nestings; "
+        "anyOf/oneOf over integer branches under positive and negative generation; "
+        "non-trivial = at least one bound / at least 3 cases; distinct by canonical JSON"
     )
     chk.proofs(["Common", "C03"])
     k = 10 if chk.broken else 1  # a broken proof obligation: search ten times harder for a concrete failing input
-    stage_numbers(chk, 2000 if quick else 30000)
-    stage_anyof(chk, 200 if quick else 3000)
+    stage_numbers(chk, 2000 if quick else 24000)
+    stage_anyof(chk, 150 if quick else 2000)
     stage_objects(chk, 90 if quick else 1200)
     stage_lengths(chk, 400 if quick else 5000)
     stage_sizes(chk, 250 if quick else 2500)
-    stage_cases(chk, (180 if quick else 2600) * (k if quick else 1))
-    stage_composite(chk, (110 if quick else 1200) * k)
+    stage_cases(chk, (180 if quick else 2300) * (k if quick else 1))
+    # a correspondence stage disagreed: the property oracle on the real code at those inputs and at their neighbours
+    stage_tie_oracle(chk, max_inputs=24 if quick else 120, max_schemas=700 if quick else 6000)
+    stage_bounds(chk, thorough=not quick)
+    if chk.broken and not chk.failures:
+        k = 10  # a broken tie without a failing input so far: the sampled search tries ten times harder
+    stage_composite(chk, (100 if quick else 1000) * k)
     for f in chk.findings:
         chk.known(f, witness_fails(f["witness"]))
 
